@@ -270,6 +270,52 @@ func checkC20(c *core.Ctx) {
 	c.Explain = "TSTATE (DESIGN.md 3.8) for tcpreader.ReaderStream: explicit exploration of the product of each consumer method's CFG with the abstract object state {first, closed, ackOwed, channelClosed, len(current)==0}, closed under arbitrary call sequences of Read and Close starting from the state NewReaderStream builds (all reachable exit states are fed back as entry states; 2 methods x at most 48 states). Decides: (R20.1) no receive from the data channel while an acknowledgement is owed, no acknowledgement when none is owed or after the channels were closed; on the assembler side Reassembled performs exactly one send followed by one receive of the acknowledgement; (R20.2) both channels are closed in exactly one function, once each; (R20.3) Read returns io.EOF only with closed set and nothing buffered. Not decided: byte equality of what is read, deadlock freedom against arbitrary assembler behaviour, timing."
 	r1 := c.Rule("R20.1", "T", "ack-owed typestate of the reader/assembler hand-shake over all Read/Close sequences")
 	r2 := c.Rule("R20.2", "T", "both channels closed exactly once, in one function")
+	r4 := c.Rule("R20.4", "T", "the per-chunk loss flag is cleared whenever a chunk leaves the reader's queue (every r.current = r.current[k:] is followed by lossReported = false)")
+	{
+		n := 0
+		for _, fn := range pkgFunctions(p, "tcpassembly/tcpreader") {
+			k := 0
+			core.Instrs(fn, func(ins ssa.Instruction) {
+				st, ok := ins.(*ssa.Store)
+				if !ok {
+					return
+				}
+				fa, ok := st.Addr.(*ssa.FieldAddr)
+				if !ok || core.FieldOfAddr(fa).Name() != "current" {
+					return
+				}
+				sl, ok := st.Val.(*ssa.Slice)
+				if !ok || sl.Low == nil {
+					return
+				}
+				if lo, ok := core.ConstInt(sl.Low); !ok || lo < 1 {
+					return
+				}
+				if _, ok := core.LoadsField(sl.X, "current"); !ok {
+					return
+				}
+				n++
+				k++
+				key := fmt.Sprintf("%s/pop#%d", core.FnKey(fn), k)
+				esc := core.ForwardSearch(fn, ins, func(i ssa.Instruction) bool { _, isRet := i.(*ssa.Return); return isRet }, func(i ssa.Instruction) bool {
+					s2, ok := i.(*ssa.Store)
+					if !ok {
+						return false
+					}
+					f2, ok := s2.Addr.(*ssa.FieldAddr)
+					if !ok || core.FieldOfAddr(f2).Name() != "lossReported" {
+						return false
+					}
+					b, ok := core.ConstBool(s2.Val)
+					return ok && !b
+				})
+				r4.Check(esc == nil, key, p.InstrPos(ins), "lossReported is cleared on every path after the chunk is dropped", "a chunk is dropped from the queue without clearing lossReported: the gap in front of the next chunk is then delivered silently although LossErrors asks for a DataLost error per gap")
+			})
+		}
+		if n < 1 {
+			r4.Missing("tcpreader/queue pops", "no r.current = r.current[k:] found")
+		}
+	}
 	r3 := c.Rule("R20.3", "T", "io.EOF only when closed and drained")
 
 	read := p.Func(pkg, "ReaderStream.Read")
